@@ -5,9 +5,13 @@ inverse and log-determinant of that covariance.
 The link value is made an ARBITRARY admissible number by re-parametrising the offset (onto):
   exp, cosh-1 :  w0 = ln e - w'x  with e > 0 a fresh variable  (exp(h) = e, cosh(h) = (e + 1/e)/2)
   step, relu  :  w0 = +-t - w'x   with t > 0                    (h = +-t: both branches of the link)
-NOT covered (declined, see DESIGN.md): 'bound <= true expectation' / quadratic tightness -- the
-right-hand side has no closed form; the step-link equality and zero-weight exactness need ln/sqrt of
-sums (outside the symbolic domain)."""
+Step-link EQUALITY clause (Dx = 1, one noise unit, square A, both signs of the input weight): the value
+returned by integrate_log_conditional_y equals the true expectation, which here has a closed form in
+Phi / phi (two half-lines with constant covariance) -- decided with Phi atoms (gtverif/phi.py).
+NOT covered (declined, see DESIGN.md): 'bound <= true expectation' / quadratic tightness for the exp,
+cosh-1 and rectified-linear links -- the right-hand side has no closed form; zero-weight exactness
+needs ln(cosh(.)) of a symbolic argument (ln of a sum: outside the symbolic domain); the step equality
+for Dx >= 2 needs truncated moments of a 2-d Gaussian."""
 from fractions import Fraction
 import itertools
 import numpy as np
@@ -16,14 +20,15 @@ from ..case import Case
 from .. import spec
 from .common import gt, fields, invariant_claims, density_is_normalised_claims
 from .c16 import make_het, HET
+from ..case import Case
 
 PROP = "C17"
 
 BOUNDS = {
-    "quick": "all four links; (Dy,Da,Dk) in {(1,1,1),(2,2,1),(2,2,2)} (A square) and {(1,2,1),(1,2,2),(2,3,2)} (A wide, Da>Dy); Dx<=2; N=2 points; link values arbitrary (exp, cosh-1) or on either side of the kink (step, relu)",
+    "quick": "step-link equality of the bound at Dx=1, Dk=1, Dy=Da in {1,2}, both weight signs; coherence: all four links; (Dy,Da,Dk) in {(1,1,1),(2,2,1),(2,2,2)} (A square) and {(1,2,1),(1,2,2),(2,3,2)} (A wide, Da>Dy); Dx<=2; N=2 points; link values arbitrary (exp, cosh-1) or on either side of the kink (step, relu)",
     "thorough": "adds Dy=Da=3 with A bound to generic rationals, Dx=3",
 }
-ASSUMPTIONS = ["only the coherence clause of C17 is claimed; the lower-bound / tightness clauses are declined (no closed-form right-hand side; the property's own oracle is adaptive quadrature)"]
+ASSUMPTIONS = ["claimed: the coherence clause (all links) and the step-link equality for Dx=1; declined: lb <= true expectation and quadratic tightness for exp / cosh-1 / rectified-linear (no closed-form right-hand side; the property's own oracle is adaptive quadrature), zero-weight exactness (ln of a sum)"]
 
 
 def coherence_case(link, Dx, Dy, Da, Dk, signs=None, semi=(), timeout=600, prop=PROP):
@@ -98,8 +103,96 @@ def coherence_case(link, Dx, Dy, Da, Dk, signs=None, semi=(), timeout=600, prop=
     return Case(cid, prop, cfg, declare, fn, claims, timeout=timeout)
 
 
+def trunc_moments(ops, phi, m, s, lo=None, hi=None):
+    """(F0, F1, F2) = int_{lo}^{hi} x^k N(x; m, s^2) dx, k = 0,1,2, from the textbook formulas (independent of the
+    library's recursion); lo / hi None = infinite"""
+    Pa = phi.Phi((lo - m) / s) if lo is not None else ops.zero()
+    Pb = phi.Phi((hi - m) / s) if hi is not None else ops.one()
+    pa = phi.phi((lo - m) / s) if lo is not None else ops.zero()
+    pb = phi.phi((hi - m) / s) if hi is not None else ops.zero()
+    F0 = Pb - Pa
+    F1 = m * F0 + s * (pa - pb)
+    F2 = (m * m + s * s) * F0
+    if lo is not None:
+        F2 = F2 + s * (m + lo) * pa
+    if hi is not None:
+        F2 = F2 - s * (m + hi) * pb
+    return F0, F1, F2
+
+
+class _FloatPhi:
+    def Phi(self, t):
+        import math
+        return 0.5 * (1.0 + math.erf(t / math.sqrt(2.0)))
+
+    def phi(self, t):
+        import math
+        return math.exp(-t * t / 2.0) / math.sqrt(2.0 * math.pi)
+
+
+def step_equality_case(Dy, wsign, timeout=900):
+    """C17, step link: integrate_log_conditional_y(p_x, y) EQUALS E_p(x)[ln N(y; Mx+b, Sigma(x))] (Dx=1, one noise unit,
+    square A).  Oracle: the two half-lines h<0 / h>=0 with their own constant covariance, quadratic log-densities
+    integrated against truncated Gaussian moments written from the textbook formulas with Phi atoms."""
+    cid = f"C17/step-equality/Dx1Dy{Dy}Da{Dy}Dk1/w{'pos' if wsign > 0 else 'neg'}"
+    cfg = dict(clause="step link: returned value equals the true expected log-density", Dx=1, Dy=Dy, Da=Dy, Dk=1, weight_sign=wsign)
+
+    def declare(b):
+        b.free("M", (1, Dy, 1)); b.free("bv", (1, Dy)); b.free("A", (1, Dy, Dy))
+        b.pos("wabs", (1, 1)); b.free("w0", (1,))
+        b.derived("W", (1, 2), lambda I, ops: np.array([[I["w0"][0], I["wabs"][0, 0] * ops.c(wsign)]], dtype=object))
+        b.spd("Sx", 1, 1); b.free("mx", (1, 1)); b.free("y", (1, Dy))
+        b.phi_slots(3)
+
+    def fn(**A):
+        from ..phi import patched_norm
+        factor, measure, pdf, conditional = gt()
+        with patched_norm():
+            c = make_het("step", {"M": A["M"], "bv": A["bv"], "A": A["A"], "W": A["W"]})
+            px = pdf.GaussianPDF(Sigma=A["Sx"], mu=A["mx"])
+            return {"val": c.integrate_log_conditional_y(px, y=A["y"])}
+
+    def claims(I, O, ops):
+        M, bb, A_ = I["M"][0], I["bv"][0], I["A"][0]
+        y = I["y"][0]
+        w0 = I["W"][0, 0]; w = I["W"][0, 1]
+        m = I["mx"][0, 0]
+        phi = ops.ctx.phi if ops.symbolic else _FloatPhi()
+        s = ops.sqrt(I["Sx"][0, 0, 0])
+        c = -w0 / w
+        S0 = spec.mm(A_, A_.T)
+        S1 = S0.copy()
+        for i in range(Dy):
+            for j in range(Dy):
+                S1[i, j] = S1[i, j] + A_[i, 0] * A_[j, 0]
+
+        def quad_coeffs(Sg):
+            """ln N(y; M x + b, Sg) = q0 + q1 x + q2 x^2"""
+            Li, d = spec.inv(ops, Sg)
+            r0 = y - bb            # residual at x = 0
+            r1 = -M[:, 0]          # d residual / dx
+            q0 = ops.c(Fraction(-1, 2)) * spec.quad(r0, Li, r0) - ops.c(Fraction(1, 2)) * ops.lnabs(d) - ops.c(Fraction(Dy, 2)) * ops.ln2pi()
+            q1 = -spec.quad(r0, Li, r1)
+            q2 = ops.c(Fraction(-1, 2)) * spec.quad(r1, Li, r1)
+            return q0, q1, q2
+        if wsign > 0:
+            reg0 = trunc_moments(ops, phi, m, s, None, c); reg1 = trunc_moments(ops, phi, m, s, c, None)
+        else:
+            reg0 = trunc_moments(ops, phi, m, s, c, None); reg1 = trunc_moments(ops, phi, m, s, None, c)
+        tot = ops.zero()
+        for (F0, F1, F2), Sg in ((reg0, S0), (reg1, S1)):
+            q0, q1, q2 = quad_coeffs(Sg)
+            tot = tot + q0 * F0 + q1 * F1 + q2 * F2
+        return [("step link: integrate_log_conditional_y(p_x, y) = E_p(x)[ln p(y|x)]", O["val"], tot)]
+
+    return Case(cid, PROP, cfg, declare, fn, claims, timeout=timeout)
+
+
 def cases(tier, seed=0):
     out = []
+    for Dy in (1, 2):
+        for wsign in (1, -1):
+            out.append(step_equality_case(Dy, wsign))
     shapes = [(1, 1, 1, 1), (2, 2, 2, 1), (2, 2, 2, 2), (1, 1, 2, 1), (1, 1, 2, 2), (2, 2, 3, 2)]   # (Dx, Dy, Da, Dk)
     for link in ("exp", "cosh"):
         for (Dx, Dy, Da, Dk) in shapes:
